@@ -126,6 +126,9 @@ CHECKS = {
     'C28': ('Opened results of the real secure groups on simulated party worlds validated by TLC against Groups.tla (same specification as C27)',
             'S_3..S_5 (thorough S_2..S_7), QR, Schnorr, Edwards / Weierstrass curves in every oblivious coordinate system, kummer1271, hyperelliptic curves in Mumford representation (NumPy venv), class groups: @ in all secure/plain operand combinations and aliases, ~, ==, !=, if_else, repeat with public / secret exponents and public / secret bases, repeat_public, decode, elements by conversion and by input from varying senders, on m in {1,3,4} (thorough up to 5, PRSS on/off); all parties open the same element.',
             'Exponents |e| <= 5; cases that are known never to complete are run once in a world of their own.', 'DESIGN.md C28'),
+    'C38': ('Opened results of real secure polynomials (mpyc.secpols, NumPy venv) on simulated party worlds validated by TLC against Poly.tla / PolyTrace.tla (same specification as C23)',
+            'Primes 3..31 (thorough ..101), degrees <= 2 (thorough 3), shares padded with 0..2 leading zero coefficients, created by conversion and by mpc.input, m in {1,3,4}: + - * neg, all six comparisons, divmod // %, gcd, gcdext, invert, powmod (negative exponents too), **, << >>, evaluation at public / secret points, degree, monic, reverse, truncate, [], copy, if_else, is_irreducible; LenPublicOK: result share lengths depend on operand lengths and public arguments only.',
+            'Operations that use the secret degree need shares shorter than p (documented assumption): full operator set for 2(deg+1+pad)-1 < p, ring operations for tiny primes.', 'DESIGN.md C38'),
 }
 NA_REASON = 'check not built yet in this session (planned, see DESIGN.md section 3); not claimed'
 
